@@ -215,5 +215,8 @@ Probe(S) ==
            Universe(1, 1, {<<"Img", "url">>, <<"Doc", "cover">>, <<"Query", "maybe">>}, {}),
            Universe(2, 2, {<<"Img", "w">>, <<"Page", "n">>}, {<<"Query", "nodes">>, <<"Query", "grid">>}),
            Universe(1, 2, {}, {<<"Doc", "pages">>, <<"Query", "res">>})>>
+    [] S.id = "deep" ->
+         <<Universe(0, 2, {}, {}), Universe(1, 2, {<<"T1", "next">>, <<"T2", "x">>}, {}), Universe(2, 1, {<<"T1", "c">>}, {<<"Query", "v">>}),
+           Universe(3, 2, {}, {<<"Query", "bs">>})>>
     [] OTHER -> <<Universe(0, 2, {}, {})>>
 =============================================================================
